@@ -3,6 +3,11 @@
 //! failing-input search (oracles written from the property text: dual feasibility, support vectors
 //! are training rows, decision function = kernel expansion, label rule, SVR box / sum / KKT within
 //! tolerance / termination, kernels vs closed forms, Gram matrices positive semi-definite).
+//! Besides centred data (coordinates of order 1) every kernel clause is also searched on OFFSET data:
+//! rows that share a large common offset compared with their spread (offset/spread 1e3..1e9 in f64,
+//! 3e2..1e4 in f32; timestamps, map coordinates, Kelvin), against a reference that forms differences
+//! first and sums in twice the precision, with a tolerance derived from the rounding-error bound of
+//! the closed form evaluated in the working precision (4 x the first-order bound).
 use serde_json::{json, Value};
 use smartcore::linalg::naive::dense_matrix::DenseMatrix;
 use smartcore::svm::svc::{self, SVCParameters, SVC};
@@ -897,6 +902,25 @@ impl OffsetFrame {
     }
 }
 
+thread_local! {
+    static OFFSET_FAILS: std::cell::RefCell<std::collections::BTreeMap<String, usize>> = std::cell::RefCell::new(Default::default());
+}
+/// The offset families can fail thousands of times on one defect; keep 1 replay input per
+/// (family, oracle) so that every failing clause is represented among the stored failures, and count the rest.
+fn fail_capped(out: &mut Out, family: &str, oracle: &str, what: &str, input: Value) {
+    let seen = OFFSET_FAILS.with(|m| {
+        let mut m = m.borrow_mut();
+        let e = m.entry(format!("{}/{}", family, oracle)).or_insert(0);
+        *e += 1;
+        *e
+    });
+    if seen <= 1 {
+        out.fail(oracle, what, input);
+    } else {
+        out.count(&format!("fail:{}", oracle));
+    }
+}
+
 fn kernel_offset_input(k: &Kern, a: &[f64], b: &[f64], prec: Prec) -> Value {
     json!({"entry": "kernel_offset", "kernel": k.to_json(), "a": a, "b": b, "prec": prec.name()})
 }
@@ -990,7 +1014,8 @@ fn check_kernel_offset(out: &mut Out, k: &Kern, a: &[f64], b: &[f64], prec: Prec
                     _ => j += 1,
                 }
             }
-            out.fail(&oracle, &what, kernel_offset_input(k, &a, &b, prec));
+            out.count(&format!("fail-in:kernel-offset:{}:{}", prec.name(), frame));
+            fail_capped(out, &format!("kernel-offset:{}", prec.name()), &oracle, &what, kernel_offset_input(k, &a, &b, prec));
             false
         }
     }
@@ -1090,7 +1115,8 @@ fn check_gram_offset(out: &mut Out, k: &Kern, x: &[Vec<f64>], prec: Prec, frame:
                     _ => i += 1,
                 }
             }
-            out.fail(&oracle, &what, json!({"entry": "gram_offset", "kernel": k.to_json(), "x": x, "prec": prec.name()}));
+            out.count(&format!("fail-in:gram-offset:{}:{}", prec.name(), frame));
+            fail_capped(out, &format!("gram-offset:{}", prec.name()), &oracle, &what, json!({"entry": "gram_offset", "kernel": k.to_json(), "x": x, "prec": prec.name()}));
             false
         }
     }
@@ -1393,7 +1419,7 @@ fn main() {
     let mut rng = Rng::new(a.seed);
     let mut out = Out::new(
         "C10",
-        "search case = one fit (SVC: data, labels, kernel, C, epochs, tol and one random visiting schedule; SVR: data, targets, kernel, eps, C, tol), one kernel evaluation or one Gram matrix; non-trivial: SVC with >= 2 rows of each class, SVR with >= 4 rows, kernel pair with a != b, Gram of >= 3 rows; distinct by hash of (data, parameters, repetition)",
+        "search case = one fit (SVC: data, labels, kernel, C, epochs, tol and one random visiting schedule; SVR: data, targets, kernel, eps, C, tol), one kernel evaluation or one Gram matrix; non-trivial: SVC with >= 2 rows of each class, SVR with >= 4 rows, kernel pair with a != b, Gram of >= 3 (offset families: pairwise distinct) rows; distinct by hash of (data, parameters, precision, repetition). Families: centred data (coordinates of order 1, scales 0.01..10) and offset data (rows = common offset + spread, offset/spread 1e3..1e9 in f64 and 3e2..1e4 in f32, incl. UNIX timestamps, map coordinates, Kelvin) for kernels, Gram matrices and RBF fits",
     );
     let t = a.thorough;
 
@@ -1553,7 +1579,32 @@ fn main() {
 
     // ---- offset families (rows = large common offset + small spread), own stream derived from the seed ----
     let mut orng = Rng::new(a.seed ^ 0x0ff5_e7c1_0c10);
+    out.max_failures = 16; // room for one replay per failing clause of each offset family
     let mut acc = Acc::default();
+    // fixed examples of un-centred data: event times (UNIX seconds), surveyed map coordinates (metres),
+    // temperatures in Kelvin stored as f32 -- every pair and the Gram matrix
+    {
+        let stamps: Vec<Vec<f64>> = [0.0, 5.0, 12.0, 30.0, 31.0, 75.0, 140.0, 141.5].iter().map(|d| vec![1.6e9 + d]).collect();
+        let survey: Vec<Vec<f64>> = vec![
+            vec![512_340.10, 5_403_871.25], vec![512_340.13, 5_403_871.27], vec![512_340.60, 5_403_871.25],
+            vec![512_341.10, 5_403_872.00], vec![512_338.75, 5_403_870.50], vec![512_340.11, 5_403_871.25],
+        ];
+        let kelvin: Vec<Vec<f64>> = [[293.15f32, 295.40, 301.20], [293.25, 295.30, 301.30], [293.20, 295.45, 301.15], [294.15, 295.90, 300.70], [293.16, 295.41, 301.21]]
+            .iter()
+            .map(|r| r.iter().map(|v| *v as f64).collect())
+            .collect();
+        let mut mneg = 0.0;
+        for (rows, g, prec, name) in [(&stamps, 1.0 / 7200.0, Prec::F64, "corpus:timestamps"), (&survey, 1.0, Prec::F64, "corpus:map-coordinates"), (&survey, 10.0, Prec::F64, "corpus:map-coordinates"), (&kelvin, 5.0, Prec::F32, "corpus:kelvin")] {
+            for k in [Kern::Rbf(g), Kern::Linear] {
+                for i in 0..rows.len() {
+                    for j in 0..=i {
+                        check_kernel_offset(&mut out, &k, &rows[i], &rows[j], prec, name, &mut acc);
+                    }
+                }
+                check_gram_offset(&mut out, &k, rows, prec, name, &mut mneg);
+            }
+        }
+    }
     // search: the four kernels against the careful closed form, symmetry, K(x,x), 2x2 minors
     for prec in [Prec::F64, Prec::F32] {
         let cases = match (prec, t) {
@@ -1606,6 +1657,7 @@ fn main() {
         }
     }
     out.set("offset_gram_most_negative_eigenvalue_over_tolerance", json!(most_negative));
+    let mut offset_fit_failures = 0;
     // search: SVC / SVR fits on offset data (RBF kernel: shift-invariant, so the fit is as well-posed as on centred data)
     for i in 0..(if t { 1500 } else { 160 }) {
         let n = orng.usize_in(4, if i % 5 == 0 { 40 } else { 16 });
@@ -1615,11 +1667,17 @@ fn main() {
         let (cx, y) = gen_classification(&mut orng, n, p, i % 7 == 0, i % 2 == 0, lp);
         let x: Vec<Vec<f64>> = cx.iter().map(|r| fr.place(r, Prec::F64)).collect();
         let k = Kern::Rbf(*orng.pick(&[0.05, 0.25, 0.5, 1.0, 2.0]) / (fr.spread * fr.spread));
-        let k = if std::env::var("C10X").is_ok() { if i % 2 == 0 { Kern::Linear } else { fr.kernel(&mut orng, 2, p, Prec::F64) } } else { k };
         let c = *orng.pick(&cs);
         let (ep, tl) = (orng.usize_in(1, 3), *orng.pick(&tols));
-        check_svc(&mut out, &mut orng, &k, &x, &y, c, ep, tl, 2, &format!("offset:{}", fr.bucket()));
+        if !check_svc(&mut out, &mut orng, &k, &x, &y, c, ep, tl, 2, &format!("offset:{}", fr.bucket())) {
+            offset_fit_failures += 1;
+            if offset_fit_failures >= 2 {
+                out.count("search:svc:offset:stopped-after-2-failing-inputs");
+                break;
+            }
+        }
     }
+    offset_fit_failures = 0;
     for i in 0..(if t { 1500 } else { 160 }) {
         let n = orng.usize_in(4, if i % 5 == 0 { 40 } else { 16 });
         let p = orng.usize_in(1, 4);
@@ -1631,11 +1689,16 @@ fn main() {
             continue;
         }
         let k = Kern::Rbf(*orng.pick(&[0.1, 0.5, 1.0]) / (fr.spread * fr.spread));
-        let k = if std::env::var("C10X").is_ok() { if i % 2 == 0 { Kern::Linear } else { Kern::Poly(*orng.pick(&[1.0,2.0,3.0]), 1.0 / fr.offs.iter().map(|o| o * o).sum::<f64>(), 1.0) } } else { k };
         let c = *orng.pick(&cs);
         let eps = *orng.pick(&[0.0, 0.05, 0.1, 0.3, 0.5]);
         let tl = *orng.pick(&tols);
-        check_svr(&mut out, &k, &x, &y, eps, c, tl, &format!("offset:{}", fr.bucket()), &mut worst);
+        if !check_svr(&mut out, &k, &x, &y, eps, c, tl, &format!("offset:{}", fr.bucket()), &mut worst) {
+            offset_fit_failures += 1;
+            if offset_fit_failures >= 2 {
+                out.count("search:svr:offset:stopped-after-2-failing-inputs");
+                break;
+            }
+        }
     }
     // correspondence: the kernel model (differences first, like the code) against the implementation on offset rows
     for i in 0..(if t { 240 } else { 64 }) {
